@@ -1,0 +1,107 @@
+//go:build verif
+
+// Contracts for the directory cache (cache.go): C21. Comment-only file. Same structure as the attribute
+// cache (zz_contracts_cache_verif.go), generated from it by renaming.
+package absnfs
+
+//@ specdef dcShape(c *DirCache) bool = c != nil && c.entries != nil && c.accessList != nil && c.maxEntries > 0
+//@ specdef dcFwd(c *DirCache) bool = forall(p, string, has(c.entries, p) ==> allocated(c.entries[p]) && allocated(c.entries[p].listElement) && lmem[c.accessList][c.entries[p].listElement] && typeof(c.entries[p].listElement.Value) == typeid(string) && elemPath(c.entries[p].listElement) == p, c.entries[p])
+//@ specdef dcBack(c *DirCache) bool = forall(e, *list.Element, lmem[c.accessList][e] ==> allocated(e) && typeof(e.Value) == typeid(string) && has(c.entries, elemPath(e)) && c.entries[elemPath(e)].listElement == e, lmem[c.accessList][e])
+//@ specdef dcCount(c *DirCache) bool = llen[c.accessList] == len(c.entries)
+//@ specdef dcInv(c *DirCache) bool = dcShape(c) && dcFwd(c) && dcBack(c) && dcCount(c) && len(c.entries) <= c.maxEntries
+//@ specdef dcRank(c *DirCache, p string) mathint = lrank[c.accessList][c.entries[p].listElement]
+
+
+//@ func DirCache.updateAccessLog
+//@ prop C21
+//@ requires dcShape(c) && (has(c.entries, path) ==> c.entries[path] != nil)
+//@ modifies lmem, lrank, llen, CachedDirEntry.listElement
+// present with an element: it becomes the most recent; present without: a fresh element carrying path is pushed
+//@ ensures [absent-noop] !has(c.entries, path) ==> lmem == old(lmem) && lrank == old(lrank) && llen == old(llen) && forall(x, *CachedDirEntry, x.listElement == old(x.listElement), x.listElement)
+//@ ensures [moved] has(c.entries, path) && old(c.entries[path].listElement) != nil ==> lmem == old(lmem) && llen == old(llen) && forall(x, *CachedDirEntry, x.listElement == old(x.listElement), x.listElement) && forall(e, mathint, e != c.entries[path].listElement ==> lrank[c.accessList][e] == old(lrank[c.accessList][e])) && (lmem[c.accessList][c.entries[path].listElement] ==> forall(e, mathint, lmem[c.accessList][e] && e != c.entries[path].listElement ==> lrank[c.accessList][c.entries[path].listElement] > lrank[c.accessList][e]))
+//@ ensures [pushed] has(c.entries, path) && old(c.entries[path].listElement) == nil ==> c.entries[path].listElement != nil && fresh(c.entries[path].listElement) && allocated(c.entries[path].listElement) && lmem[c.accessList][c.entries[path].listElement] && typeof(c.entries[path].listElement.Value) == typeid(string) && elemPath(c.entries[path].listElement) == path && llen[c.accessList] == old(llen[c.accessList]) + 1 && forall(e, mathint, e != c.entries[path].listElement ==> lmem[c.accessList][e] == old(lmem[c.accessList][e]) && lrank[c.accessList][e] == old(lrank[c.accessList][e])) && forall(e, mathint, old(lmem[c.accessList][e]) ==> lrank[c.accessList][c.entries[path].listElement] > lrank[c.accessList][e]) && forall(x, *CachedDirEntry, x != c.entries[path] ==> x.listElement == old(x.listElement), x.listElement)
+//@ ensures [other-lists] listFrame(c.accessList)
+
+//@ func DirCache.removeFromAccessList
+//@ prop C21
+//@ requires dcShape(c) && (has(c.entries, path) ==> c.entries[path] != nil)
+//@ modifies lmem, llen, CachedDirEntry.listElement
+//@ ensures [noop] !has(c.entries, path) || old(c.entries[path].listElement) == nil ==> lmem == old(lmem) && llen == old(llen) && forall(x, *CachedDirEntry, x.listElement == old(x.listElement), x.listElement)
+//@ ensures [removed] has(c.entries, path) && old(c.entries[path].listElement) != nil ==> c.entries[path].listElement == nil && !lmem[c.accessList][old(c.entries[path].listElement)] && forall(e, mathint, e != old(c.entries[path].listElement) ==> lmem[c.accessList][e] == old(lmem[c.accessList][e])) && llen[c.accessList] == old(llen[c.accessList]) - ite(old(lmem[c.accessList][c.entries[path].listElement]), 1, 0) && forall(x, *CachedDirEntry, x != c.entries[path] ==> x.listElement == old(x.listElement), x.listElement)
+//@ ensures [other-lists] listFrame2(c.accessList)
+
+//@ func DirCache.Invalidate
+//@ prop C21
+//@ requires dcInv(c)
+//@ modifies mapof(c.entries), lmem, llen, CachedDirEntry.listElement, locks
+//@ ensures [gone] !has(c.entries, path) && forall(q, string, q != path ==> has(c.entries, q) == old(has(c.entries, q)) && c.entries[q] == old(c.entries[q]))
+//@ ensures [inv-shape] dcShape(c)
+//@ ensures [inv-fwd] dcFwd(c)
+//@ ensures [inv-back] dcBack(c)
+//@ ensures [inv-count] dcCount(c)
+//@ ensures [capacity] len(c.entries) <= c.maxEntries
+//@ ensures [unlocked] held(c.mu) == 0
+
+//@ func DirCache.Put
+//@ prop C21
+//@ requires dcInv(c)
+//@ modifies mapof(c.entries), lmem, lrank, llen, CachedDirEntry.listElement, clock, locks
+//@ ensures [oversized-not-stored] len(entries) > c.maxDirSize ==> mapsame(c.entries) && lmem == old(lmem) && lrank == old(lrank) && llen == old(llen)
+//@ ensures [stored-copy] len(entries) <= c.maxDirSize ==> has(c.entries, path) && c.entries[path] != nil && len(c.entries[path].entries) == len(entries) && (len(entries) > 0 ==> fresh(c.entries[path].entries)) && forall(a, off(c.entries[path].entries), off(c.entries[path].entries) + len(entries), absidx(c.entries[path].entries, a) == entries[a - off(c.entries[path].entries)], absidx(c.entries[path].entries, a))
+//@ ensures [expiry] len(entries) <= c.maxDirSize ==> tsec(c.entries[path].validUntil) == clock + real(c.timeout) / 1000000000.0
+//@ ensures [inv-shape] dcShape(c) && c.accessList == old(c.accessList) && c.entries == old(c.entries)
+// helper steps (kept as postconditions: each is proved, then available to the next)
+//@ ensures [h-existing] len(entries) <= c.maxDirSize ==> (old(has(c.entries, path)) ==> c.entries[path].listElement == old(c.entries[path].listElement) && lmem == old(lmem) && llen == old(llen) && len(c.entries) == old(len(c.entries)))
+//@ ensures [h-new] len(entries) <= c.maxDirSize ==> (!old(has(c.entries, path)) ==> fresh(c.entries[path].listElement) && c.entries[path].listElement != nil && lmem[c.accessList][c.entries[path].listElement] && typeof(c.entries[path].listElement.Value) == typeid(string) && elemPath(c.entries[path].listElement) == path)
+//@ ensures [h-path-alloc] len(entries) <= c.maxDirSize ==> (allocated(c.entries[path].listElement))
+//@ ensures [h-path-elem] len(entries) <= c.maxDirSize ==> (lmem[c.accessList][c.entries[path].listElement] && typeof(c.entries[path].listElement.Value) == typeid(string) && elemPath(c.entries[path].listElement) == path)
+//@ ensures [h-others-same] len(entries) <= c.maxDirSize ==> (forall(p, string, p != path && has(c.entries, p) ==> old(has(c.entries, p)) && c.entries[p] == old(c.entries[p]) && c.entries[p].listElement == old(c.entries[p].listElement) && c.entries[p].listElement.Value == old(c.entries[p].listElement.Value) && lmem[c.accessList][c.entries[p].listElement], c.entries[p]))
+//@ ensures [h-members] len(entries) <= c.maxDirSize ==> (forall(e, *list.Element, lmem[c.accessList][e] && e != c.entries[path].listElement ==> old(lmem[c.accessList][e]) && e.Value == old(e.Value) && has(c.entries, old(elemPath(e))) && elemPath(e) != path))
+//@ ensures [h-mb1] len(entries) <= c.maxDirSize ==> (forall(e, *list.Element, lmem[c.accessList][e] && e != c.entries[path].listElement ==> c.entries[elemPath(e)] == old(c.entries[elemPath(e)])))
+//@ ensures [h-mb2] len(entries) <= c.maxDirSize ==> (forall(e, *list.Element, lmem[c.accessList][e] && e != c.entries[path].listElement ==> old(c.entries[elemPath(e)].listElement) == e))
+//@ ensures [h-mb3] len(entries) <= c.maxDirSize ==> (forall(e, *list.Element, lmem[c.accessList][e] && e != c.entries[path].listElement ==> c.entries[elemPath(e)].listElement == old(c.entries[elemPath(e)].listElement)))
+//@ ensures [h-members-back] len(entries) <= c.maxDirSize ==> (forall(e, *list.Element, lmem[c.accessList][e] && e != c.entries[path].listElement ==> c.entries[elemPath(e)].listElement == e))
+//@ ensures [inv-fwd] dcFwd(c)
+//@ ensures [inv-back] dcBack(c)
+//@ ensures [inv-count] dcCount(c)
+//@ ensures [capacity] len(c.entries) <= c.maxEntries
+//@ ensures [most-recent] len(entries) <= c.maxDirSize ==> (forall(q, string, has(c.entries, q) && q != path ==> dcRank(c, path) > dcRank(c, q)))
+// nothing but the least recently used entry is ever dropped, and only when a NEW key arrives at capacity
+//@ ensures [others-kept] len(entries) <= c.maxDirSize ==> (old(has(c.entries, path)) || old(len(c.entries)) < c.maxEntries ==> forall(q, string, q != path ==> has(c.entries, q) == old(has(c.entries, q)) && c.entries[q] == old(c.entries[q])))
+//@ ensures [lru-victim] len(entries) <= c.maxDirSize ==> (!old(has(c.entries, path)) && old(len(c.entries)) >= c.maxEntries ==> exists(v, string, old(has(c.entries, v)) && !has(c.entries, v) && forall(q, string, old(has(c.entries, q)) ==> old(dcRank(c, v)) <= old(dcRank(c, q))) && forall(q, string, q != path && q != v ==> has(c.entries, q) == old(has(c.entries, q)) && c.entries[q] == old(c.entries[q]))))
+//@ ensures [unlocked] held(c.mu) == 0
+
+//@ func DirCache.Clear
+//@ prop C21 C17
+//@ requires c != nil
+//@ modifies c.entries, c.accessList, lmem, lrank, llen, locks
+//@ ensures [empty] len(c.entries) == 0 && forall(q, string, !has(c.entries, q))
+//@ ensures [inv] c.maxEntries > 0 ==> dcInv(c)
+//@ ensures [unlocked] held(c.mu) == 0
+
+//@ func DirCache.Size
+//@ prop C21
+//@ requires c != nil
+//@ modifies locks
+//@ ensures result == len(c.entries) && held(c.mu) == 0
+
+//@ func DirCache.Resize
+//@ prop C21
+//@ requires dcInv(c)
+//@ modifies c.maxEntries, mapof(c.entries), lmem, llen, locks
+//@ ensures [size] c.maxEntries == ite(newMaxEntries <= 0, 1000, newMaxEntries)
+//@ ensures [capacity] len(c.entries) <= c.maxEntries
+//@ ensures [inv-shape] dcShape(c)
+//@ ensures [inv-fwd] dcFwd(c)
+//@ ensures [inv-back] dcBack(c)
+//@ ensures [inv-count] dcCount(c)
+//@ ensures [survivors-unchanged] forall(q, string, has(c.entries, q) ==> old(has(c.entries, q)) && c.entries[q] == old(c.entries[q]), c.entries[q])
+//@ ensures [unlocked] held(c.mu) == 0
+//@ loop 1 invariant c != nil && held(c.mu) == -1 && c.entries == old(c.entries) && c.accessList == old(c.accessList) && c.maxEntries > 0 && c.maxEntries == newMaxEntries && newMaxEntries == ite(entry_newMaxEntries <= 0, 1000, entry_newMaxEntries)
+//@ loop 1 invariant dcShape(c) && dcFwd(c) && dcBack(c) && dcCount(c)
+//@ loop 1 invariant forall(q, string, has(c.entries, q) ==> old(has(c.entries, q)) && c.entries[q] == old(c.entries[q]), c.entries[q])
+
+//@ func NewDirCache
+//@ prop C21
+//@ ensures [nonnil] result != nil && fresh(result)
+//@ ensures [inv] dcInv(result) && len(result.entries) == 0 && result.maxEntries == ite(maxEntries <= 0, 1000, maxEntries) && result.maxDirSize == ite(maxDirSize <= 0, 10000, maxDirSize) && result.timeout == ite(timeout <= 0, 10000000000, timeout)
